@@ -262,7 +262,8 @@ def run_one(sid):
         caught = target in fired and fired[target]["exit"] == 1
         meta["checks"] = {"fired": fired, "caught_by_target_property": caught, "caught_by_any": any(v["exit"] == 1 for v in fired.values())}
         json.dump(meta, open(meta_p, "w"), indent=1)
-        return ("%-8s target=%s caught=%s any=%s fired=%s" % (sid, target, caught, meta["checks"]["caught_by_any"], {k: v["rules"] or ("exit%d" % v["exit"]) for k, v in fired.items()}))
+        sup = "  [superseded by fix %s: no longer a violation of %s]" % (meta["superseded"]["by"], target) if meta.get("superseded") else ""
+        return ("%-8s target=%s caught=%s any=%s fired=%s%s" % (sid, target, caught, meta["checks"]["caught_by_any"], {k: v["rules"] or ("exit%d" % v["exit"]) for k, v in fired.items()}, sup))
 
 
 def verify_neutral(src, sid, patch, demo="demo.py"):
